@@ -9,16 +9,20 @@ CASE_TYPE = 'c09_case'
 CHECK = 'c09_check'
 SHOW = 'c09_show'
 SHARD = 200
+EMPTY_RAW = '(Build_raw_caches [] [] [] [] [])'
 RULE = ('case = (relation matrix of a generated partial order on <= 8 carriers, initial element list, '
         'cache flag, optional true children_dict, history of public POSet calls); after every call the '
         'output is compared with the model and with the cache-free spec, then every query on the final '
         'state and the element list; non-trivial = at least one mutation with an order query before and '
         'after it')
-EXHAUSTIVE = {'thorough': 'all histories of length <= 3 over the alphabet {parents, children, ancestors, '
-                          'descendants of every index; add of every absent carrier with and without cache '
-                          'filling; delete of every index} and all histories of length 4 over {parents, '
-                          'children, add, delete}, on the 5-carrier universe {{},{0},{1},{0,1}} + one '
-                          'incomparable carrier, from 4 (resp. 2) initial element lists, cache on'}
+EXHAUSTIVE = {'thorough': 'over the 5-carrier universe {{},{0},{1},{0,1}} + one incomparable carrier: cache on - all '
+                          'histories of length <= 3 over {parents, children, ancestors, descendants of every index; add '
+                          'of every absent carrier with and without cache filling; delete of every index} from 4 initial '
+                          'lists and all of length 4 over {parents, children, add, delete} from 1; cache off - all of '
+                          'length <= 2 (full alphabet, 4 lists) and of length 3 (reduced alphabet, 2 lists); constructed '
+                          'with the true children_dict - all of length <= 3 (full alphabet, 2 lists); all of length <= 2 '
+                          'over the alphabet extended by the four *_dict properties and trace_element of every carrier '
+                          'in both directions (4 lists)'}
 
 
 # ------------------------------------------------------------------ implementation
@@ -31,9 +35,10 @@ def run_impl(case):
         cd = PL.true_children(m, init) if case.get('cd') and case['cache'] else None
         p = POSet(init, leq, use_cache=case['cache'], children_dict=cd)
         outs = [PL.apply_op(p, o, leq, POSet) for o in case['ops']]
-        # kept as two compact strings (Coq list terms): thousands of small lists per case are
+        raw = PL.raw_caches_term(p)          # read-only peek, before the final queries fill everything
+        # kept as compact strings (Coq terms): thousands of small lists per case are
         # too heavy for the volumes of the thorough tier
-        return [PL.outs_term(outs), PL.outs_term(PL.run_final(p, leq, POSet))]
+        return [PL.xouts_term(outs), raw, PL.outs_term(PL.run_final(p, leq, POSet))]
     r = guarded(go, timeout_s=20)
     return list(r)
 
@@ -44,12 +49,15 @@ def to_coq(case, out):
     if case.get('cd'):
         cd = sorted(PL.true_children(m, case['init']).items())
     if out[0] == 'ok':
-        steps, fin = out[1]
+        steps, raw, fin = out[1]
     else:
-        steps, fin = PL.outs_term([['x', PL.ERR_KINDS.get(out[1], 11)]]), '[]'
-    return 'Build_c09_case %s %s %s %s %s %s %s' % (
+        steps, raw, fin = PL.xouts_term([['x', PL.ERR_KINDS.get(out[1], 11)]]), EMPTY_RAW, '[]'
+    # the model's caching discipline is exact as long as CPython lists sets of indexes in
+    # ascending order, i.e. for indexes < 8
+    exact = len(m) <= 8
+    return 'Build_c09_case %s %s %s %s %s %s %s %s %s' % (
         coq(m), coq(list(case['init'])), PL.b(case['cache']), PL.cache_term(cd),
-        PL.ops_term(case['ops']), steps, fin)
+        PL.xops_term(case['ops']), steps, raw, PL.b(exact), fin)
 
 
 # ------------------------------------------------------------------ generation
@@ -68,14 +76,14 @@ def random_case(rng, max_ops, kmax=8):
     if big:
         init, cache, cd = rng.sample(range(k), rng.choice([10, k])), True, True
         max_ops = min(max_ops, 8)
-    ops = PL.random_history(rng, init, k, rng.randint(3, max_ops), cache)
+    ops = PL.random_history(rng, init, k, rng.randint(3, max_ops), cache, ext=True)
     return {'matrix': m, 'init': init, 'cache': cache, 'cd': cd, 'ops': ops, 'kind': kind}
 
 
 U5 = PL.closure(5, [(0, 1), (0, 2), (1, 3), (2, 3)])     # {},{0},{1},{0,1} and an incomparable 4
 
 
-def _alphabet(cur, full):
+def _alphabet(cur, full, ext=False):
     n = len(cur)
     a = []
     for i in range(n):
@@ -87,6 +95,9 @@ def _alphabet(cur, full):
             a += [['add', e, True], ['add', e, False]]
     for i in range(n):
         a.append(['del', i])
+    if ext:
+        a += [['dict', cv, up] for cv in (True, False) for up in (True, False)]
+        a += [['trace', e, up] for e in range(5) for up in (True, False)]
     return a
 
 
@@ -98,24 +109,44 @@ def _apply(cur, o):
     return cur
 
 
-def _histories(cur, length, full):
+def _histories(cur, length, full, ext=False):
     if length == 0:
         yield []
         return
-    for o in _alphabet(cur, full):
-        for rest in _histories(_apply(cur, o), length - 1, full):
+    for o in _alphabet(cur, full, ext):
+        for rest in _histories(_apply(cur, o), length - 1, full, ext):
             yield [o] + rest
+
+
+def _mk(init, h, cache=True, cd=False):
+    return {'matrix': U5, 'init': init, 'cache': cache, 'cd': cd, 'ops': h, 'kind': 'exhaustive'}
 
 
 def exhaustive_cases():
     inits3 = [[0, 1, 2, 3], [3, 1, 0], [1, 2, 4], [0, 3, 4, 1]]
-    for init in inits3:
+    for init in inits3:                                   # cache on
         for ln in (1, 2, 3):
             for h in _histories(init, ln, True):
-                yield {'matrix': U5, 'init': init, 'cache': True, 'cd': False, 'ops': h, 'kind': 'exhaustive'}
-    for init in [[0, 1, 3], [3, 2, 4, 0]]:
+                yield _mk(init, h)
+    for init in [[3, 2, 4, 0]]:
         for h in _histories(init, 4, False):
-            yield {'matrix': U5, 'init': init, 'cache': True, 'cd': False, 'ops': h, 'kind': 'exhaustive'}
+            yield _mk(init, h)
+    for init in inits3:                                   # cache off
+        for ln in (1, 2):
+            for h in _histories(init, ln, True):
+                yield _mk(init, h, cache=False)
+    for init in [[0, 1, 3], [3, 2, 4, 0]]:
+        for h in _histories(init, 3, False):
+            yield _mk(init, h, cache=False)
+    for init in [[0, 1, 2, 3], [3, 1, 0]]:                # constructed with the true children_dict
+        for ln in (1, 2, 3):
+            for h in _histories(init, ln, True):
+                yield _mk(init, h, cd=True)
+    for init in inits3:                                   # with trace_element and the *_dict properties
+        for ln in (1, 2):
+            for h in _histories(init, ln, True, ext=True):
+                if any(o[0] in ('dict', 'trace') for o in h):
+                    yield _mk(init, h)
 
 
 def sample_exhaustive(rng, count):
@@ -127,7 +158,7 @@ def sample_exhaustive(rng, count):
         init = list(cur)
         h = []
         for _ in range(rng.randint(2, 4)):
-            o = rng.choice(_alphabet(cur, True))
+            o = rng.choice(_alphabet(cur, True, ext=rng.random() < 0.3))
             h.append(o)
             cur = _apply(cur, o)
         out.append({'matrix': U5, 'init': init, 'cache': rng.random() < 0.9, 'cd': rng.random() < 0.2,
@@ -139,7 +170,7 @@ def generate(rng, tier):
     cases = []
     if tier == 'thorough':
         cases += list(exhaustive_cases())
-        n_rand, max_ops = 40000, 30
+        n_rand, max_ops = 20000, 30
     else:
         cases += sample_exhaustive(rng, 600)
         n_rand, max_ops = 2600, 12
@@ -163,7 +194,9 @@ def stats(case):
             'has_present_add': _has_present_add(case),
             'has_del': any(o[0] == 'del' for o in ops), 'has_rm': any(o[0] == 'rm' for o in ops),
             'has_join_meet': any(o[0] == 'bd' for o in ops), 'has_fill': any(o[0] == 'fill' for o in ops),
-            'has_eq': any(o[0] == 'eq' for o in ops)}
+            'has_eq': any(o[0] == 'eq' for o in ops),
+            'has_trace': any(o[0] == 'trace' for o in ops), 'has_dict': any(o[0] == 'dict' for o in ops),
+            'has_sup_inf': any(o[0] == 'sup' for o in ops)}
 
 
 def _has_present_add(case):
